@@ -294,6 +294,11 @@ func genC04Cfg(g *simrt.Chooser, stratum string) (SnapCfg, rdbgen.GenOpts) {
 	c.BufSize = 16 << g.Choose("bufsize", 13)
 	c.Left = int64(1 + g.Choose("left", 1<<20))
 	c.Resume = true // the real setCheckpoint writes the resume position to the target
+	if stratum == "targeterr" && g.Choose("keyexists", 3) == 0 {
+		// the target is empty, so the policy decides nothing about the data — but an error reply must stop the replay
+		// under every policy (ignore must not mistake a target error for "key exists")
+		c.KeyExists = "ignore"
+	}
 	c.DBM.TargetDb = -1
 	if g.Choose("dbmap", 4) == 0 {
 		c.DBM.TargetDb = g.Choose("targetdb", 16)
@@ -305,9 +310,6 @@ func genC04Cfg(g *simrt.Chooser, stratum string) (SnapCfg, rdbgen.GenOpts) {
 	if g.Choose("bisync", 5) == 0 {
 		c.Bisync = true
 		c.Parallel = 1 // see C20: unit numbering shared by the workers is not replayable
-		// the bidirectional path skips policy and expiry for the key with the empty name (reported by C20):
-		// keep that defect out of this property's fault-free baseline
-		o.NoEmptyKey = true
 	}
 	o.MaxKeys = 1 + g.Choose("maxkeys", 40)
 	if (stratum == "truncate" || stratum == "bitflip") && g.Choose("tiny", 4) != 0 {
@@ -451,7 +453,8 @@ func runC04(r *Run, stratum string) *Violation {
 			}
 		}
 	case "targeterr":
-		texts := []string{"ERR injected", "OOM command not allowed when used memory > 'maxmemory'.", "LOADING Redis is loading the dataset in memory", "READONLY You can't write against a read only replica."}
+		texts := []string{"ERR injected", "OOM command not allowed when used memory > 'maxmemory'.", "LOADING Redis is loading the dataset in memory", "READONLY You can't write against a read only replica.",
+			"BUSY Redis is busy running a script. You can only call SCRIPT KILL or SHUTDOWN NOSAVE.", "MISCONF Redis is configured to save RDB snapshots, but it's currently unable to persist to disk.", "NOAUTH Authentication required."}
 		text := texts[g.Choose("errtext", len(texts))]
 		for _, k := range grid(requests+1, 400, nil) {
 			if v := sub(c04Fault{mode: "targeterr", errAt: k + 1, errText: text}, true); v != nil {
